@@ -156,18 +156,49 @@ theorem pU64_nondigit (inp : List Char) (h : ∀ c, inp.head? = some c → c.isD
 
 /-! ## `checkedSize` -/
 
-/-- the step of the `checked_mul` fold. -/
-def csStep (acc : Option Nat) (v : Nat) : Option Nat :=
-  match acc with
-  | some n => if n * v < 2 ^ 64 then some (n * v) else none
-  | none => none
+/-- product of the non-zero lengths. -/
+def nzSize (s : List Nat) : Nat := size (s.map (fun v => max v 1))
 
-theorem checkedSize_eq_foldl (s : List Nat) : checkedSize s = s.foldl csStep (some 1) := rfl
+theorem nzSize_cons (v : Nat) (s : List Nat) : nzSize (v :: s) = max v 1 * nzSize s := rfl
 
-theorem csStep_foldl_none (s : List Nat) : s.foldl csStep none = none := by
+theorem nzSize_pos (s : List Nat) : 0 < nzSize s := by
+  induction s with
+  | nil => simp [nzSize, size]
+  | cons v s ih => rw [nzSize_cons]; exact Nat.mul_pos (by omega) ih
+
+theorem size_le_nzSize (s : List Nat) : size s ≤ nzSize s := by
+  induction s with
+  | nil => simp [nzSize]
+  | cons v s ih => rw [nzSize_cons, size]; exact Nat.mul_le_mul (by omega) ih
+
+theorem nzStep_foldl_none (s : List Nat) : s.foldl nzStep none = none := by
   induction s with
   | nil => rfl
-  | cons v s ih => simpa [csStep] using ih
+  | cons v s ih => simpa [nzStep] using ih
+
+/-- the fold succeeds iff the product of the non-zero lengths (times the start value) fits. -/
+theorem nzStep_foldl (s : List Nat) (a : Nat) (ha : 0 < a) (hlt : a < 2 ^ 64) :
+    s.foldl nzStep (some a) = if a * nzSize s < 2 ^ 64 then some (a * nzSize s) else none := by
+  induction s generalizing a with
+  | nil => simp [nzSize, size, hlt]
+  | cons v s ih =>
+    have hm : 0 < max v 1 := by omega
+    have hn : 0 < nzSize s := nzSize_pos s
+    have hassoc : a * nzSize (v :: s) = a * max v 1 * nzSize s := by rw [nzSize_cons, Nat.mul_assoc]
+    rw [hassoc]
+    by_cases hav : a * max v 1 < 2 ^ 64
+    · have hstep : nzStep (some a) v = some (a * max v 1) := by simp [nzStep, hav]
+      rw [List.foldl_cons, hstep, ih _ (Nat.mul_pos ha hm) hav]
+    · have hstep : nzStep (some a) v = none := by simp [nzStep, hav]
+      have hle : a * max v 1 ≤ a * max v 1 * nzSize s := Nat.le_mul_of_pos_right _ hn
+      rw [List.foldl_cons, hstep, nzStep_foldl_none, if_neg (by omega)]
+
+theorem checkedSize_eq (s : List Nat) : checkedSize s = if nzSize s < 2 ^ 64 then some (size s) else none := by
+  unfold checkedSize
+  rw [nzStep_foldl s 1 (by decide) (by decide), Nat.one_mul]
+  by_cases h : nzSize s < 2 ^ 64
+  · simp only [h, if_true]
+  · simp only [h, if_false]
 
 theorem size_pos_of_pos (s : List Nat) (hs : ∀ v ∈ s, 0 < v) : 0 < size s := by
   induction s with
@@ -176,55 +207,36 @@ theorem size_pos_of_pos (s : List Nat) (hs : ∀ v ∈ s, 0 < v) : 0 < size s :=
     simp only [size]
     exact Nat.mul_pos (hs w (by simp)) (ih (fun x hx => hs x (by simp [hx])))
 
-/-- general form: the fold started at `a`, when every prefix product stays below 2^64. -/
-theorem csStep_foldl_pos (s : List Nat) (a : Nat) (hpos : ∀ v ∈ s, 0 < v) (ha : 0 < a)
-    (hlt : a * size s < 2 ^ 64) : s.foldl csStep (some a) = some (a * size s) := by
-  induction s generalizing a with
-  | nil => simp [size]
+theorem nzSize_of_pos (s : List Nat) (hpos : ∀ v ∈ s, 0 < v) : nzSize s = size s := by
+  induction s with
+  | nil => rfl
   | cons v s ih =>
     have hv : 0 < v := hpos v (by simp)
-    have hs : ∀ w ∈ s, 0 < w := fun w hw => hpos w (by simp [hw])
-    have hsz : 0 < size s := size_pos_of_pos s hs
-    simp only [size] at hlt
-    have h1 : a * v * size s = a * (v * size s) := Nat.mul_assoc _ _ _
-    have hav : a * v < 2 ^ 64 := by
-      have : a * v ≤ a * v * size s := Nat.le_mul_of_pos_right _ hsz
-      omega
-    simp only [List.foldl_cons, csStep, hav, if_true]
-    rw [ih (a * v) hs (Nat.mul_pos ha hv) (by omega), size, h1]
+    rw [nzSize_cons, size, ih (fun w hw => hpos w (by simp [hw])), Nat.max_eq_left hv]
 
-/-- with all axes ≥ 1 the prefix products are bounded by the total, so `checked_elements` succeeds. -/
+/-- with all axes ≥ 1 `checked_elements` succeeds iff the product fits. -/
 theorem checkedSize_of_pos (s : List Nat) (hpos : ∀ v ∈ s, 0 < v) (hlt : size s < 2 ^ 64) :
     checkedSize s = some (size s) := by
-  have := csStep_foldl_pos s 1 hpos (by decide) (by simpa using hlt)
-  rw [checkedSize_eq_foldl, this, Nat.one_mul]
-
-theorem csStep_foldl_some (s : List Nat) (a n : Nat)
-    (h : s.foldl csStep (some a) = some n) : n = a * size s := by
-  induction s generalizing a with
-  | nil => simpa [size] using h.symm
-  | cons v s ih =>
-    simp only [List.foldl_cons, csStep] at h
-    by_cases hav : a * v < 2 ^ 64
-    · simp only [hav, if_true] at h
-      rw [ih _ h, size, Nat.mul_assoc]
-    · simp only [hav, if_false] at h
-      rw [csStep_foldl_none] at h
-      cases h
+  rw [checkedSize_eq, nzSize_of_pos s hpos, if_pos hlt]
 
 /-- whenever `checked_elements` succeeds it returns the product. -/
 theorem checkedSize_eq_some (s : List Nat) (n : Nat) (h : checkedSize s = some n) : n = size s := by
-  have := csStep_foldl_some s 1 n h
-  rw [this, Nat.one_mul]
+  rw [checkedSize_eq] at h
+  split at h
+  · exact (Option.some.inj h).symm
+  · cases h
 
-theorem csStep_foldl_zero (s : List Nat) : s.foldl csStep (some 0) = some 0 := by
-  induction s with
-  | nil => rfl
-  | cons v s ih => simpa [csStep] using ih
+theorem checkedSize_lt (s : List Nat) (n : Nat) (h : checkedSize s = some n) : n < 2 ^ 64 := by
+  have hn := checkedSize_eq_some s n h
+  rw [checkedSize_eq] at h
+  split at h
+  · have := size_le_nzSize s; omega
+  · cases h
 
-/-- first axis 0: the product is 0 from the first step on. -/
-theorem checkedSize_zero_head (s : List Nat) : checkedSize (0 :: s) = some 0 := by
-  rw [checkedSize_eq_foldl]
-  simpa [csStep] using csStep_foldl_zero s
+theorem checkedSize_none_of_nz (s : List Nat) (h : 2 ^ 64 ≤ nzSize s) : checkedSize s = none := by
+  rw [checkedSize_eq, if_neg (by omega)]
+
+theorem checkedSize_none_of_le (s : List Nat) (h : 2 ^ 64 ≤ size s) : checkedSize s = none :=
+  checkedSize_none_of_nz s (Nat.le_trans h (size_le_nzSize s))
 
 end Sfs
